@@ -88,13 +88,15 @@ class Obl:
 def run_property(pid, tier, seed, out=sys.stdout):
     t_start = time.time()
     contracts.load_all()
+    import lemmas as LM
+    LM.load_all()
     timeout_s = 10 if tier == 'quick' else 60
     native_n = 150 if tier == 'quick' else 2000
     fucs = [q for q, c in S.CONTRACTS.items() if pid in c.props and not c.trusted]
     trusted = [q for q, c in S.CONTRACTS.items() if pid in c.props and c.trusted]
     structural = [s for s in getattr(S, 'STRUCTURAL', []) if pid in s['props']]
-    lemmas = [l for l in S.LEMMAS if pid in l.props]
-    if not fucs and not structural and not lemmas:
+    lemma_list = [l for l in S.LEMMAS if pid in l.props]
+    if not fucs and not structural and not lemma_list:
         print("UNDECIDED property=%s no contracts registered" % pid, file=out)
         return 2
 
@@ -126,9 +128,9 @@ def run_property(pid, tier, seed, out=sys.stdout):
 
     # lemmas (code-independent) and structural obligations
     lemma_results = []
-    if lemmas:
+    if lemma_list:
         from pyvc import lemmas as L
-        lemma_results = L.discharge_lemmas(lemmas, timeout_s)
+        lemma_results = L.discharge_lemmas(lemma_list, timeout_s)
     struct_results = []
     for s in structural:
         try:
